@@ -13,6 +13,10 @@ interleaving of the calls is a sequence of steps.
   which a LOST task counts as success there — not the code's behaviour, kept to show what the `ErrTaskLost` case is for.
 * an execution commits the output to the store and then marks the task OK, or marks it failed.
 * `Discard` (bigmachine.go:1051): does nothing unless the task is OK; else marks it RUNNING, deletes the output, marks it LOST.
+* `cancel`: a waiting `Run` call whose context is cancelled returns that error and — through the same deferred handler —
+  marks the task failed, although the call never held it.  The theorems of `Properties/C12w` are about histories without
+  such cancellations; `cancel_breaks_one_holder` there is the trace of what a cancellation makes possible (observed on the
+  real worker by sub-check C12wk: `run a ; run b ; cancel b ; run c`).
 
 Core-only.
 -/
@@ -47,6 +51,7 @@ inductive Ev
   | discEnter (i : Nat)
   | discStore (i : Nat)
   | discFin (i : Nat)
+  | cancel (i : Nat)       -- the context of a *waiting* Run call is cancelled (its client went away)
 deriving Repr, DecidableEq
 
 def init (n : Nat) : S := ⟨.init, false, List.replicate n .idle, []⟩
@@ -85,10 +90,18 @@ def step (lostIsError : Bool) (s : S) : Ev → S
     if s.th i = .disc false then { (s.setTh i (.disc true)) with out := false } else s
   | .discFin i =>
     if s.th i = .disc true then { (s.setTh i .idle) with st := .lost, replies := (i, .none) :: s.replies } else s
+  | .cancel i =>
+    -- `task.Wait` returns the context's error; `task.Err()` is nil while the task is RUNNING, so the call returns the
+    -- context's error and the deferred handler records it in the task — `task.Error` — although another call holds it
+    if s.th i = .wait then { (s.setTh i .idle) with st := .err, replies := (i, .err) :: s.replies } else s
 
 def run (lostIsError : Bool) (s : S) (evs : List Ev) : S := evs.foldl (step lostIsError) s
 
 /-- 1 for a call that holds the task (executes it or discards it) -/
+def Ev.isCancel : Ev → Bool
+  | .cancel _ => true
+  | _ => false
+
 def act : Th → Nat
   | .exec => 1
   | .disc _ => 1
